@@ -845,10 +845,18 @@ def run(world, scn):
     obs['status'] = status
     obs['t_end'] = world.loop._now
     # --- quiescent inspection
+    # (diagnostics only - no verdict depends on the queue's private attributes)
+    def _peek(name, pairs=False):
+        try:
+            v = getattr(q, name)
+            return [(ts, _norm(i)) for ts, i in v] if pairs else \
+                sorted(_norm(i) for i in v)
+        except Exception:
+            return []
     obs['internals'] = {
-        'queued': [(ts, _norm(i)) for ts, i in q.queued],
-        'queued_ids': sorted(_norm(i) for i in q.queued_ids),
-        'active_ids': sorted(_norm(i) for i in q.active_ids),
+        'queued': _peek('queued', True),
+        'queued_ids': _peek('queued_ids'),
+        'active_ids': _peek('active_ids'),
         'drivers_pending': sum(1 for d in drivers if not d.dead),
     }
     try:
